@@ -382,7 +382,44 @@ def D06b():
     return failed, f"capture pending, cursor-only update arrives first: capture ended with {res!r}, {len(out.getvalue())} bytes written"
 
 
-ALL = [D04, D06b, D01, D02a, D02a2, D02b, D02c, D06, D10, D12, D14a, D14b, D15, D15b,
+def _forever(t0b):
+    """two viewers of ONE --forever factory; viewer A connects at second 1000, viewer B at t0b; A leaves while B goes on"""
+    import tempfile, shutil
+    from proxygen import Proxy
+    from twisted.python.failure import Failure
+    from twisted.internet.error import ConnectionDone
+    d = tempfile.mkdtemp(prefix="verif-demo-")
+    try:
+        key = lambda k, dn: struct.pack("!BBxxI", 4, dn, k)
+        a = Proxy(False, 10_000_000, outdir=d)
+        a.viewer_sends(b"RFB 003.008\n\x01\x01" + key(0x61, 1))
+        b = Proxy(False, t0b, fac=a.fac)
+        b.viewer_sends(b"RFB 003.008\n\x01\x01" + key(0x62, 1))
+        a.srv.connectionLost(Failure(ConnectionDone()))
+        b.viewer_sends(key(0x62, 0) + key(0x63, 1))
+        b.srv.connectionLost(Failure(ConnectionDone()))
+        for q in (a, b):
+            f = getattr(q.srv.recorder, "__self__", None)
+            if f is not None and not f.closed:
+                f.flush()
+        return sorted(open(os.path.join(d, f)).read() for f in os.listdir(d))
+    finally:
+        shutil.rmtree(d, ignore_errors=True)
+
+
+def D17c():
+    got = _forever(10_020_000)
+    want = sorted(["pause 0.0000 keydown a \n", "pause 0.0000 keydown b \npause 0.0000 keyup b \npause 0.0000 keydown c \n"])
+    return got != want, f"--forever, viewer B still typing when viewer A disconnects: scripts {got!r}"
+
+
+def D17d():
+    got = _forever(10_000_000)
+    want = sorted(["pause 0.0000 keydown a \n", "pause 0.0000 keydown b \npause 0.0000 keyup b \npause 0.0000 keydown c \n"])
+    return got != want, f"--forever, two viewers connecting within the same second: scripts {got!r}"
+
+
+ALL = [D17c, D17d, D04, D06b, D01, D02a, D02a2, D02b, D02c, D06, D10, D12, D14a, D14b, D15, D15b,
        D16a, D16b, D16c, D16d, D16e, D17a, D17b, D18, D20]
 
 if __name__ == "__main__":
